@@ -1417,7 +1417,9 @@ class Router(NetworkNode, discriminator="router"):
             self.sys_log.info(f"Frame blocked at port {at_port} by rule {rule}")
             return
 
-        if frame.ip and self.software_manager.arp:
+        # only ARP packets carry their sender's own MAC; an IP packet another router forwarded onto this segment
+        # carries that router's MAC
+        if frame.ip and self.software_manager.arp and frame.udp and frame.is_arp:
             self.software_manager.arp.add_arp_cache_entry(
                 ip_address=frame.ip.src_ip_address,
                 mac_address=frame.ethernet.src_mac_addr,
